@@ -75,6 +75,10 @@ def drive_(a, rng):
     sub = ts.dump_tables()
     sub.subset(gen.arg_form(rng, nodes), record_provenance=False, reorder_populations=ro, remove_unreferenced=ru)
     case.update(nodes=nodes, ro=1 if ro else 0, ru=1 if ru else 0, sub=A(sub))
+    # the same call through the TreeSequence facade gives the same tables
+    tsub = ts.subset(nodes, record_provenance=False, reorder_populations=ro, remove_unreferenced=ru).dump_tables()
+    case["facade_subset_same"] = 1 if tsub.equals(sub, ignore_provenance=True) else 0
+    case["facade_union_same"] = 1
     rg0, cleared = abstr.ragged_variant(ts.dump_tables(), rng)
     rg = rg0.copy()
     rg.subset(nodes, record_provenance=False, reorder_populations=ro, remove_unreferenced=ru)
@@ -94,6 +98,11 @@ def drive_(a, rng):
     sharedB = shared[:]
     rng.shuffle(sharedB)
     PA, PB = shared + rest[:kk], sharedB + rest[kk:]
+    if rng.random() < 0.5:
+        # the nodes of `other` that are new to self need not come after the shared ones
+        rng.shuffle(PB)
+    shared_set = set(shared)
+    shp = {i for i, u in enumerate(PB) if u in shared_set}       # positions (= node ids in `other`) of the shared nodes
     addpop = rng.random() < 0.5
     case.update(union_skip=1, inverse_applicable=0, inverse_same=0, tamper_skip=1, tamper_check=0, tamper_raised=0, clean_raised=0,
                 addpop=1 if addpop else 0, mapping=[], ua=case["a"], ub=case["a"], uni=case["a"])
@@ -101,7 +110,7 @@ def drive_(a, rng):
     ta.subset(PA, record_provenance=False, reorder_populations=False)
     tb = ts.dump_tables()
     tb.subset(PB, record_provenance=False, reorder_populations=False)
-    mapping = [PA.index(PB[i]) if i < len(shared) else -1 for i in range(len(PB))]
+    mapping = [PA.index(PB[i]) if i in shp else -1 for i in range(len(PB))]
     tb2 = tb.copy()
     retag(tb2, 100)
     # with re-tagged rows the shared parts differ in metadata -> compare without the check, or use the un-retagged copy
@@ -111,6 +120,12 @@ def drive_(a, rng):
         if check:
             tu.union(tb, gen.arg_form(rng, mapping), check_shared_equality=True, add_populations=addpop, record_provenance=False)
             other = tb
+            try:
+                tsu = ta.tree_sequence().union(tb.tree_sequence(), mapping, check_shared_equality=True, add_populations=addpop, record_provenance=False)
+                if not tsu.dump_tables().equals(tu, ignore_provenance=True):
+                    case["facade_union_same"] = 0
+            except tskit.LibraryError:
+                pass        # a part need not be a valid tree sequence on its own (unsorted after subset): only the table-level call applies
             ra_, rb_ = rg0.copy(), rg0.copy()
             ra_.subset(PA, record_provenance=False, reorder_populations=False)
             rb_.subset(PB, record_provenance=False, reorder_populations=False)
@@ -130,7 +145,7 @@ def drive_(a, rng):
     if case["union_skip"] == 0 and not addpop and check and separable(ts, PA, PB):
         c1 = tu.copy()
         c2 = ts.dump_tables()
-        c2.subset(PA + rest[kk:], record_provenance=False, reorder_populations=False)
+        c2.subset(PA + [u for u in PB if u not in shared_set], record_provenance=False, reorder_populations=False)
         c1.canonicalise(remove_unreferenced=False)
         c2.canonicalise(remove_unreferenced=False)
         c1.provenances.clear()
@@ -149,17 +164,17 @@ def drive_(a, rng):
             tabname = what.split("_")[0] + "s"
             tab = getattr(tt, tabname)
             if tabname == "nodes":
-                idx = list(range(nsh))
+                idx = sorted(shp)
             elif tabname == "edges":
-                idx = [i for i, e in enumerate(tt.edges) if e.parent < nsh and e.child < nsh]
+                idx = [i for i, e in enumerate(tt.edges) if e.parent in shp and e.child in shp]
             elif tabname == "mutations":
-                idx = [i for i, m in enumerate(tt.mutations) if m.node < nsh]
+                idx = [i for i, m in enumerate(tt.mutations) if m.node in shp]
             elif tabname == "sites":
-                idx = sorted({m.site for m in tt.mutations if m.node < nsh})
+                idx = sorted({m.site for m in tt.mutations if m.node in shp})
             elif tabname == "populations":
-                idx = sorted({int(tt.nodes[u].population) for u in range(nsh) if tt.nodes[u].population != tskit.NULL})
+                idx = sorted({int(tt.nodes[u].population) for u in sorted(shp) if tt.nodes[u].population != tskit.NULL})
             else:
-                idx = sorted({int(tt.nodes[u].individual) for u in range(nsh) if tt.nodes[u].individual != tskit.NULL})
+                idx = sorted({int(tt.nodes[u].individual) for u in sorted(shp) if tt.nodes[u].individual != tskit.NULL})
             if idx:
                 md = [bytes(r.metadata) for r in tab]
                 j = rng.choice(idx)
@@ -168,18 +183,18 @@ def drive_(a, rng):
                 done = True
         if what == "time":
             fl = tt.nodes.flags.copy()      # a change that keeps `other` a valid collection
-            fl[0] = fl[0] ^ 4
+            fl[min(shp)] = fl[min(shp)] ^ 4
             tt.nodes.flags = fl
             done = True
         elif what == "edge":
-            idx = [i for i, e in enumerate(tt.edges) if e.parent < len(shared) and e.child < len(shared)]
+            idx = [i for i, e in enumerate(tt.edges) if e.parent in shp and e.child in shp]
             if idx:
                 keep = np.ones(len(tt.edges), dtype=bool)
                 keep[idx[0]] = False
                 tt.edges.keep_rows(keep)
                 done = True
         elif what == "mutation":
-            idx = [i for i, m in enumerate(tt.mutations) if m.node < len(shared)]
+            idx = [i for i, m in enumerate(tt.mutations) if m.node in shp]
             if idx:
                 ds = [m.derived_state for m in tt.mutations]
                 ds[idx[0]] = ds[idx[0]] + "X"
